@@ -1382,18 +1382,20 @@ impl CodegenContext {
         f: F,
     ) -> CoreResult<()> {
         let dummy = Identifier::new("$dummy");
-        if self.current_segment.as_ref() == Some(&dummy) {
-            // We're already emitting to the dummy segment (e.g. an untaken branch inside an uninvoked macro), so just keep
-            // using it. The outermost call will remove the segment again.
-            return f(self);
+        // The dummy segment may exist already (e.g. an untaken branch inside an uninvoked macro, possibly with a '.segment'
+        // block in between that has selected another segment). In that case we keep using it, and the outermost call
+        // will remove it again.
+        let is_outermost = !self.segments.contains_key(&dummy);
+        if is_outermost {
+            self.segments
+                .insert(dummy.clone(), Segment::new(SegmentOptions::default()));
         }
-
         let prev_segment = self.current_segment.clone();
-        self.segments
-            .insert(dummy.clone(), Segment::new(SegmentOptions::default()));
         self.current_segment = Some(dummy.clone());
         let result = f(self);
-        self.segments.remove(&dummy);
+        if is_outermost {
+            self.segments.remove(&dummy);
+        }
         self.current_segment = prev_segment;
         result
     }
